@@ -171,6 +171,7 @@ def run_check(pid, cfg, tier, seed, work, t0):
         return []
 
     seen_classes = {}
+    other = []
     for (engine, files, tid, ln, m, pre) in prop_fail:
         cls = (engine, C.msg_class(m))
         seen_classes.setdefault(cls, []).append((files, tid, ln, m, pre))
@@ -185,6 +186,14 @@ def run_check(pid, cfg, tier, seed, work, t0):
             continue
         if reported >= 4:
             continue
+        req = cfg.get("requires_ops")
+        if req:
+            # attribution: does the failure need one of this property's operations to manifest?
+            without = [l for l in lines if l.split(" ")[0] not in req]
+            r0, _ = C.replay_ops(engine, without, work, "attrib")
+            if any(C.msg_class(mm) == cls for (_, _, mm) in r0.prop):
+                other.append("%s (fails without any %s op: belongs to another property)" % (m[:160], "/".join(req)))
+                continue
         shrunk, okshrink = C.shrink(engine, lines, work, cls, budget=cfg.get("shrink_budget", 80))
         r, text = C.replay_ops(engine, shrunk, work, "final")
         msgs = ["%s" % mm for (_, _, mm) in r.prop] or [m]
@@ -237,6 +246,7 @@ def run_check(pid, cfg, tier, seed, work, t0):
         "correspondence_mismatches": len(corr_fail),
         "property_oracle_failures": len(prop_fail),
         "known_findings_reconfirmed": known_lines,
+        "failures_attributed_to_other_properties": other,
         "breaks": [b[0] + ": " + b[1][:300] for b in breaks],
         "exhaustive": False,
     })
